@@ -23,7 +23,7 @@ fn main() {
     std::panic::set_hook(Box::new(|_| {}));
     let mut rng = Rng::new(seed);
     let mut out: Vec<Violation> = Vec::new();
-    let (mut systems, mut angle_reqs, mut special, mut lints, mut degen_checked, mut collapsed, mut clean_starts) = (0usize, 0usize, 0usize, 0usize, 0usize, 0usize, 0usize);
+    let (mut systems, mut angle_reqs, mut special, mut lints, mut degen_checked, mut collapsed, mut clean_starts, mut healthy_audits) = (0usize, 0usize, 0usize, 0usize, 0usize, 0usize, 0usize, 0usize);
     for i in 0..n {
         // a system with angle requests drawn from a dense set around the special values, both units
         let mut sys = match i % 3 {
@@ -31,6 +31,9 @@ fn main() {
             1 => gen_linear(&mut rng, 4, 5),
             _ => gen_planted(&mut rng, 4, 0.2, &SHAPES),
         };
+        if i % 3 == 0 && rng.chance(1, 6) {
+            sys = with_short_feature(&mut rng, sys);
+        }
         let nvars = sys.guesses.len();
         if nvars >= 8 {
             let k = rng.range(1, 3);
@@ -141,6 +144,20 @@ fn main() {
                         let inb = vh::nonzeroes(r.constraint()).iter().flatten().all(|id| (*id as usize) < x.len());
                         inb && (vh::residual(r.constraint(), x).1 || vh::jacobian_rows(r.constraint(), x).1)
                     });
+                    // independent of the implementation's flags: by the geometric specification the request
+                    // was healthy (not degenerate, outside every documented guard band, not collapsed) at
+                    // every configuration this level visited, yet a Degenerate warning names it
+                    let healthy_throughout = r.priority() <= level && visited.iter().all(|x| {
+                        let inb = vh::nonzeroes(r.constraint()).iter().flatten().all(|id| (*id as usize) < x.len());
+                        inb && x.iter().all(|v| v.is_finite())
+                            && !ezpz_verif_harness::geom::geom_err(r.constraint(), x, sys.scale).degenerate
+                            && !ezpz_verif_harness::geom::in_guard_band(r.constraint(), x)
+                            && !ezpz_verif_harness::geom::collapsed(r.constraint(), x)
+                    });
+                    if healthy_throughout { healthy_audits += 1; }
+                    if warned && healthy_throughout {
+                        bad(format!("Degenerate warning names request {idx} ({}), whose geometry was healthy by the independent specification at every visited configuration", r.constraint().constraint_kind()), "degenerate-warning-on-healthy-geometry");
+                    }
                     if warned && !flagged {
                         bad(format!("Degenerate warning names request {idx} ({}), whose geometry was never degenerate at a visited configuration", r.constraint().constraint_kind()), "degenerate-warning-spurious");
                     }
@@ -195,5 +212,5 @@ fn main() {
             println!("VIOLATION {}", v.to_json());
         }
     }
-    println!("STATS {{\"systems\": {systems}, \"angle_requests\": {angle_reqs}, \"special_angles\": {special}, \"lints_seen\": {lints}, \"degeneracy_audits\": {degen_checked}, \"collapsed_guess_systems\": {collapsed}, \"clean_starts\": {clean_starts}, \"violations\": {}}}", out.len());
+    println!("STATS {{\"systems\": {systems}, \"angle_requests\": {angle_reqs}, \"special_angles\": {special}, \"lints_seen\": {lints}, \"degeneracy_audits\": {degen_checked}, \"healthy_request_audits\": {healthy_audits}, \"collapsed_guess_systems\": {collapsed}, \"clean_starts\": {clean_starts}, \"violations\": {}}}", out.len());
 }
